@@ -24,6 +24,7 @@ from vf.gadgets import gadget, with_fate
 from vf.symlib import SymStream, native, pin
 
 PROPERTY = "C01"
+FICKLING_DIR = os.path.join(os.environ.get("VERIF_REPO", "/repo").rstrip("/"), "fickling") + "/"
 RULE = ("Inputs = gadget programs naming dangerous and probe globals through every global-resolving and call-making opcode; int "
         "arguments and trailing bytes symbolic; truncations at every byte position and byte-level corruptions enumerated per cell; "
         "8 entry points. The check is an audit-event / import-machinery monitor, evaluated whether the entry point returns or raises.")
@@ -60,7 +61,7 @@ def _attribute():
             return None
         if "importlib._bootstrap" in fn or fn.startswith("<frozen importlib"):
             importing = True
-        if fn.startswith("/repo/fickling/"):
+        if fn.startswith(FICKLING_DIR):
             return "import" if importing else "fickling"
         f = f.f_back
     return None
@@ -277,7 +278,7 @@ def monitor_selftest(k: int) -> bool:
             "import pickle, io\ntry:\n    pickle.loads(b'cos\\ngetpid\\n.')\nexcept Exception:\n    pass",
             "import os; os.system('true')",
         ][k]
-        co = compile(code, "/repo/fickling/_selftest_.py", "exec")
+        co = compile(code, FICKLING_DIR + "_selftest_.py", "exec")
         with monitored():
             try:
                 exec(co, {})
